@@ -94,6 +94,54 @@ def selftest_axioms(seed=0):
                     bad.append((name, args, res))
             except Exception as ex:      # noqa
                 bad.append((name, args, f'{type(ex).__name__}: {ex}'))
+    bad += _selftest_cuts(rng)
+    return bad
+
+
+def _selftest_cuts(rng, n=12):
+    """split(sep, 1) / rsplit(sep, 1) / partition / rpartition of a symbolic text pinned to a concrete one: the model's answer is the
+    one CPython gives, and the only one the constraints admit"""
+    class _It:
+        def __init__(self):
+            self.assumed = []
+
+        def branch(self, c):
+            sv = z3.Solver()
+            sv.add(*[a.t for a in self.assumed], c.t)
+            r = sv.check() == z3.sat
+            self.assumed.append(c if r else Sym(z3.Not(c.t), 'bool'))
+            return r
+
+        def assume(self, c):
+            self.assumed.append(c)
+    bad = []
+    for _ in range(n):
+        txt = ''.join(rng.choice('a!b!!') for _ in range(rng.randrange(0, 7)))
+        sep = rng.choice(['!', '!!', 'a!'])
+        for name, fn, py in (('rsplit', lambda i, x: str_rsplit(i, x, sep, 1), lambda t: t.rsplit(sep, 1)),
+                             ('split', lambda i, x: str_split(i, x, sep, 1), lambda t: t.split(sep, 1)),
+                             ('partition', lambda i, x: str_partition(i, x, sep), lambda t: list(t.partition(sep))),
+                             ('rpartition', lambda i, x: str_rpartition(i, x, sep), lambda t: list(t.rpartition(sep)))):
+            it = _It()
+            x = fresh('str', 'cut')
+            it.assume(Sym(x.t == z3.StringVal(txt), 'bool'))
+            res = fn(it, x)
+            sv = z3.Solver()
+            sv.add(*[a.t for a in it.assumed])
+            if sv.check() != z3.sat:
+                bad.append((name, txt, sep, 'no model'))
+                continue
+            m = sv.model()
+            got = [(m.eval(r.t, model_completion=True).as_string() if isinstance(r, Sym) else r) for r in res]
+            if got != py(txt):
+                bad.append((name, txt, sep, got))
+            for r, g in zip(res, got):
+                if isinstance(r, Sym):
+                    sv.push()
+                    sv.add(r.t != z3.StringVal(g))
+                    if sv.check() != z3.unsat:
+                        bad.append((name, txt, sep, 'not unique'))
+                    sv.pop()
     return bad
 
 
@@ -501,10 +549,49 @@ def str_reverse(s):
     raise Unsupported('reverse of symbolic string')
 
 
+def _cut(it, s, sep, last):
+    """(found, head, tail) of a symbolic s around the first / last occurrence of the concrete, non-empty text sep (a branch on containment)"""
+    if is_sym(sep) or not isinstance(sep, str) or not sep:
+        raise Unsupported('split / partition around a symbolic or empty separator')
+    s = lift(s)
+    n, sv = len(sep), z3.StringVal(sep)
+    if not it.branch(Sym(z3.Contains(s.t, sv), 'bool')):
+        return False, None, None
+    L = z3.Length(s.t)
+    if last:
+        # the last occurrence starts at i: sep stands there and does not occur in what follows i (exact, also for overlapping occurrences)
+        i = fresh('int', 'lastidx')
+        it.assume(Sym(z3.And(i.t >= 0, i.t + n <= L, z3.SubString(s.t, i.t, n) == sv, z3.Not(z3.Contains(z3.SubString(s.t, i.t + 1, L), sv))), 'bool'))
+        idx = i.t
+    else:
+        idx = z3.IndexOf(s.t, sv, 0)
+    return True, Sym(z3.SubString(s.t, 0, idx), 'str'), Sym(z3.SubString(s.t, idx + n, L), 'str')
+
+
 def str_split(it, s, sep=None, maxsplit=-1):
-    if sep is None or is_sym(sep) or maxsplit != -1:
+    if sep is None or is_sym(sep) or is_sym(maxsplit) or maxsplit not in (-1, 1):
         raise Unsupported('split form')
+    if maxsplit == 1:
+        found, head, tail = _cut(it, s, sep, False)
+        return [head, tail] if found else [s]
     return SplitResult(s, sep)
+
+
+def str_rsplit(it, s, sep=None, maxsplit=-1):
+    if sep is None or is_sym(sep) or is_sym(maxsplit) or maxsplit != 1:
+        raise Unsupported('rsplit form')
+    found, head, tail = _cut(it, s, sep, True)
+    return [head, tail] if found else [s]
+
+
+def str_partition(it, s, sep):
+    found, head, tail = _cut(it, s, sep, False)
+    return (head, sep, tail) if found else (s, '', '')
+
+
+def str_rpartition(it, s, sep):
+    found, head, tail = _cut(it, s, sep, True)
+    return (head, sep, tail) if found else ('', '', s)
 
 
 def _late_split_result():
@@ -528,7 +615,7 @@ SYM_STR_METHODS = {
     'upper': lambda it, s: UPPER(s), 'lower': lambda it, s: LOWER(s), 'strip': lambda it, s, *a: _strip(s, a),
     'title': lambda it, s: TITLE(s),
     'find': str_find, 'index': str_index, 'startswith': str_startswith, 'endswith': str_endswith,
-    'replace': str_replace, 'join': str_join, 'split': str_split,
+    'replace': str_replace, 'join': str_join, 'split': str_split, 'rsplit': str_rsplit, 'partition': str_partition, 'rpartition': str_rpartition,
     'zfill': lambda it, s, n: str_zfill(it, s, n),
     'encode': lambda it, s, *a: (_ for _ in ()).throw(Unsupported('encode')),
 }
@@ -600,6 +687,13 @@ def symobj_attr(it, o, attr):
 
 
 # ---- methods of builtin containers called with symbolic arguments ------------------------------------------------
+def _set_comparable(x, y):
+    kx = x.k if is_sym(x) else ('str' if isinstance(x, str) else 'num' if isinstance(x, (int, float)) else None)
+    ky = y.k if is_sym(y) else ('str' if isinstance(y, str) else 'num' if isinstance(y, (int, float)) else None)
+    num = ('int', 'real', 'bool', 'num')
+    return kx is not None and ky is not None and ((kx == 'str') == (ky == 'str')) and (kx == ky or (kx in num and ky in num))
+
+
 def native_method(it, f, args, kwargs):
     recv = f.__self__
     name = f.__name__
@@ -611,6 +705,21 @@ def native_method(it, f, args, kwargs):
     if isinstance(recv, _re.Pattern) and name in ('match', 'search', 'fullmatch') and args and is_sym(args[0]) and len(args) == 1:
         return ReMatch(regex_matches(recv.pattern, name, args[0], recv.flags & ~_re.UNICODE))
     symarg = any(is_sym(a) or isinstance(a, SymObject) for a in args)
+    if isinstance(recv, set) and name in ('add', 'discard', 'remove') and len(args) == 1 and (symarg or deep_has_sym(recv)):
+        # a set with symbolic members: one path per possible coincidence of the new member with a stored one (as dict_store)
+        x = args[0]
+        for y in list(recv):
+            eq = True if y is x else (it.truth(it.compare(ast.Eq, y, x)) if (is_sym(x) or is_sym(y)) and _set_comparable(x, y)
+                                      else ((not is_sym(x)) and (not is_sym(y)) and x == y))
+            if it.branch(eq):
+                if name != 'add':
+                    set.discard(recv, y)
+                return None
+        if name == 'add':
+            set.add(recv, x)
+        elif name == 'remove':
+            raise RaiseEx(KeyError(it.msg_arg(x)))
+        return None
     if isinstance(recv, (list, tuple)):
         if name in ('append', 'extend', 'insert', 'clear', 'reverse', 'copy', '__len__'):
             if name == 'insert' and is_sym(args[0]):
